@@ -395,7 +395,7 @@ func Render(m *Model, c Chooser, o RenderOpts) *Rendered {
 // expr adapts line ends of a multi-line expression to the file's convention.
 func (w *writer) expr(e string) string {
 	if w.eol == "\r\n" {
-		return strings.ReplaceAll(e, "\n", "\r\n")
+		return strings.ReplaceAll(strings.ReplaceAll(e, "\r\n", "\n"), "\n", "\r\n")
 	}
 	return e
 }
